@@ -1,17 +1,1568 @@
-//! Engine `win` — placeholder (not written yet).
+//! Engine `win` (C07): STACK WIN unwinding (`SymbolFile::walk_frame` → `walk_with_stack_win_framedata`
+//! / `walk_with_stack_win_fpo` / `eval_win_expr`) against the Lean model `MdModel.Win`, plus the
+//! property's own oracle on the implementation alone (a reference evaluation written from the
+//! documentation at the top of `walker.rs`).
+//!
+//! case lines
+//!   `win walk base:<hex> instr:<hex> gc:<0|1>:<hex> cfi:<0|1> regs:<name=hex,..|-> mem:<hexbase>:<hexbytes|->
+//!             (rec:<ty>:<addr>:<size>:<par>:<sav>:<loc>:<hp>:<hex(rest)>)*`
+//!       `walk_frame` with a mock `FrameWalker` that is the Rust twin of `CfiStackWalker<CONTEXT_X86>`
+//!       (validity set seeded with the callee-saved registers valid in the callee; `set_caller_register`
+//!       rejects unknown names and values ≥ 2^32; `clear_caller_register` removes the memoised name).
+//!       answer: `none` | `some <valid caller registers, sorted> clears:<names passed to clear_caller_register>` | `PANIC`
+//!   `win stack ...` same fields: the real x86 unwinder (`minidump_unwind::walk_stack`) on a synthetic
+//!       context/stack/module with the records as its symbol file (oracle only, no model request).
+
 use crate::common::*;
+use breakpad_symbols::{FrameWalker, Module, SymbolFile};
+use std::borrow::Cow;
+use std::collections::{BTreeMap, BTreeSet};
+use std::fmt::Write as _;
 
 pub struct Win;
+
+const SIX: [&str; 6] = ["eip", "esp", "ebp", "ebx", "esi", "edi"];
+const X86_REGS: [&str; 10] = ["eip", "esp", "ebp", "ebx", "esi", "edi", "eax", "ecx", "edx", "eflags"];
+const CALLEE_SAVED: [&str; 4] = ["ebp", "ebx", "edi", "esi"];
+const CFI_CFA: u32 = 4096;
+const CFI_RA: u32 = 8192;
+
+#[derive(Clone, Debug, PartialEq)]
+struct Rec {
+    ty: char,
+    addr: u64,
+    size: u32,
+    par: u32,
+    sav: u32,
+    loc: u32,
+    hp: char,
+    rest: Vec<u8>,
+}
+
+#[derive(Clone, Debug)]
+struct Case {
+    mode: String,
+    base: u64,
+    instr: u64,
+    has_gc: bool,
+    gc_param: u32,
+    cfi: bool,
+    regs: Vec<(String, u32)>,
+    mem_base: u64,
+    mem: Vec<u8>,
+    recs: Vec<Rec>,
+}
+
+fn hexu(s: &str) -> Option<u64> {
+    if s.is_empty() || s.len() > 16 {
+        return None;
+    }
+    u64::from_str_radix(s, 16).ok()
+}
+fn hex32(s: &str) -> Option<u32> {
+    hexu(s).and_then(|v| u32::try_from(v).ok())
+}
+
+fn parse_case(case: &str) -> Option<Case> {
+    let f: Vec<&str> = case.split(' ').filter(|s| !s.is_empty()).collect();
+    if f.len() < 8 || f[0] != "win" || (f[1] != "walk" && f[1] != "stack") {
+        return None;
+    }
+    let base = hexu(f[2].strip_prefix("base:")?)?;
+    let instr = hexu(f[3].strip_prefix("instr:")?)?;
+    let g: Vec<&str> = f[4].strip_prefix("gc:")?.split(':').collect();
+    if g.len() != 2 || (g[0] != "0" && g[0] != "1") {
+        return None;
+    }
+    let cfi = match f[5].strip_prefix("cfi:")? {
+        "0" => false,
+        "1" => true,
+        _ => return None,
+    };
+    let mut regs = vec![];
+    let rs = f[6].strip_prefix("regs:")?;
+    if rs != "-" {
+        for p in rs.split(',').filter(|s| !s.is_empty()) {
+            let (n, v) = p.split_once('=')?;
+            if v.contains('=') {
+                return None;
+            }
+            regs.push((n.to_string(), hex32(v)?));
+        }
+    }
+    let m: Vec<&str> = f[7].strip_prefix("mem:")?.split(':').collect();
+    if m.len() != 2 {
+        return None;
+    }
+    let mut recs = vec![];
+    for s in &f[8..] {
+        let p: Vec<&str> = s.strip_prefix("rec:")?.split(':').collect();
+        if p.len() != 8 {
+            return None;
+        }
+        let tyc: Vec<char> = p[0].chars().collect();
+        let hpc: Vec<char> = p[6].chars().collect();
+        if tyc.len() != 1 || hpc.len() != 1 {
+            return None;
+        }
+        let rest = unhex(p[7])?;
+        let r = Rec {
+            ty: tyc[0],
+            addr: hexu(p[1])?,
+            size: hex32(p[2])?,
+            par: hex32(p[3])?,
+            sav: hex32(p[4])?,
+            loc: hex32(p[5])?,
+            hp: hpc[0],
+            rest,
+        };
+        // what the line grammar can express (parser.rs:279-312): one hex digit, one decimal digit,
+        // `rest` = valid UTF-8 up to the end of line, not starting with blank (eaten by `space1`)
+        let Ok(text) = std::str::from_utf8(&r.rest) else { return None };
+        if !r.ty.is_ascii_hexdigit()
+            || !r.hp.is_ascii_digit()
+            || text.contains('\r')
+            || text.contains('\n')
+            || text.starts_with(' ')
+            || text.starts_with('\t')
+        {
+            return None;
+        }
+        recs.push(r);
+    }
+    Some(Case {
+        mode: f[1].to_string(),
+        base,
+        instr,
+        has_gc: g[0] == "1",
+        gc_param: hex32(g[1])?,
+        cfi,
+        regs,
+        mem_base: hexu(m[0])?,
+        mem: unhex(m[1])?,
+        recs,
+    })
+}
+
+fn render(c: &Case) -> String {
+    let mut s = format!(
+        "win {} base:{:x} instr:{:x} gc:{}:{:x} cfi:{} regs:",
+        c.mode,
+        c.base,
+        c.instr,
+        if c.has_gc { 1 } else { 0 },
+        c.gc_param,
+        if c.cfi { 1 } else { 0 }
+    );
+    if c.regs.is_empty() {
+        s.push('-');
+    } else {
+        s.push_str(&c.regs.iter().map(|(n, v)| format!("{n}={v:x}")).collect::<Vec<_>>().join(","));
+    }
+    let _ = write!(s, " mem:{:x}:{}", c.mem_base, hex(&c.mem));
+    for r in &c.recs {
+        let _ = write!(
+            s,
+            " rec:{}:{:x}:{:x}:{:x}:{:x}:{:x}:{}:{}",
+            r.ty,
+            r.addr,
+            r.size,
+            r.par,
+            r.sav,
+            r.loc,
+            r.hp,
+            hex(&r.rest)
+        );
+    }
+    s
+}
+
+fn symbol_text(c: &Case) -> String {
+    let mut text = String::new();
+    for r in &c.recs {
+        let _ = writeln!(
+            text,
+            "STACK WIN {} {:x} {:x} 0 0 {:x} {:x} {:x} 0 {} {}",
+            r.ty,
+            r.addr,
+            r.size,
+            r.par,
+            r.sav,
+            r.loc,
+            r.hp,
+            std::str::from_utf8(&r.rest).unwrap()
+        );
+    }
+    if c.cfi {
+        let _ = writeln!(text, "STACK CFI INIT 0 ffffffff .cfa: {CFI_CFA} .ra: {CFI_RA}");
+    }
+    if text.is_empty() {
+        text.push_str("INFO x\n");
+    }
+    text
+}
+
+fn read_mem(base: u64, mem: &[u8], addr: u64) -> Option<u32> {
+    let off = addr.checked_sub(base)?;
+    let off = usize::try_from(off).ok()?;
+    let end = off.checked_add(4)?;
+    let b = mem.get(off..end)?;
+    Some(u32::from_le_bytes([b[0], b[1], b[2], b[3]]))
+}
+
+// ------------------------------------------------------------------------------------ mock walker
+
+struct MockModule {
+    base: u64,
+}
+impl Module for MockModule {
+    fn base_address(&self) -> u64 {
+        self.base
+    }
+    fn size(&self) -> u64 {
+        u64::MAX
+    }
+    fn code_file(&self) -> Cow<str> {
+        Cow::Borrowed("m.dll")
+    }
+    fn code_identifier(&self) -> Option<debugid::CodeId> {
+        None
+    }
+    fn debug_file(&self) -> Option<Cow<str>> {
+        None
+    }
+    fn debug_identifier(&self) -> Option<debugid::DebugId> {
+        None
+    }
+    fn version(&self) -> Option<Cow<str>> {
+        None
+    }
+}
+
+/// Rust twin of `CfiStackWalker<CONTEXT_X86>` (minidump-unwind/src/lib.rs:553-655).
+struct MockWalker<'a> {
+    case: &'a Case,
+    callee: BTreeMap<&'a str, u32>,
+    caller_vals: BTreeMap<String, u32>,
+    caller_valid: BTreeSet<String>,
+    clears: Vec<String>,
+    /// successful `set_caller_register` calls, in order
+    sets: Vec<(String, u64)>,
+    /// every name `set_caller_register` was called with
+    attempts: Vec<String>,
+}
+impl<'a> MockWalker<'a> {
+    fn new(case: &'a Case) -> Self {
+        let callee: BTreeMap<&str, u32> = case.regs.iter().map(|(n, v)| (n.as_str(), *v)).collect();
+        let caller_vals = callee.iter().map(|(n, v)| (n.to_string(), *v)).collect();
+        let caller_valid = CALLEE_SAVED.iter().filter(|r| callee.contains_key(**r)).map(|r| r.to_string()).collect();
+        MockWalker { case, callee, caller_vals, caller_valid, clears: vec![], sets: vec![], attempts: vec![] }
+    }
+}
+fn memoize(name: &str) -> Option<&'static str> {
+    X86_REGS.iter().find(|r| **r == name).copied()
+}
+impl<'a> FrameWalker for MockWalker<'a> {
+    fn get_instruction(&self) -> u64 {
+        self.case.instr
+    }
+    fn has_grand_callee(&self) -> bool {
+        self.case.has_gc
+    }
+    fn get_grand_callee_parameter_size(&self) -> u32 {
+        self.case.gc_param
+    }
+    fn get_register_at_address(&self, address: u64) -> Option<u64> {
+        read_mem(self.case.mem_base, &self.case.mem, address).map(|v| v as u64)
+    }
+    fn get_callee_register(&self, name: &str) -> Option<u64> {
+        self.callee.get(name).map(|v| *v as u64)
+    }
+    fn set_caller_register(&mut self, name: &str, val: u64) -> Option<()> {
+        self.attempts.push(name.to_string());
+        let m = memoize(name)?;
+        let v = u32::try_from(val).ok()?;
+        self.sets.push((name.to_string(), val));
+        self.caller_valid.insert(m.to_string());
+        self.caller_vals.insert(m.to_string(), v);
+        Some(())
+    }
+    fn clear_caller_register(&mut self, name: &str) {
+        self.clears.push(name.to_string());
+        if let Some(m) = memoize(name) {
+            self.caller_valid.remove(m);
+        }
+    }
+    fn set_cfa(&mut self, val: u64) -> Option<()> {
+        let v = u32::try_from(val).ok()?;
+        self.caller_valid.insert("esp".into());
+        self.caller_vals.insert("esp".into(), v);
+        Some(())
+    }
+    fn set_ra(&mut self, val: u64) -> Option<()> {
+        let v = u32::try_from(val).ok()?;
+        self.caller_valid.insert("eip".into());
+        self.caller_vals.insert("eip".into(), v);
+        Some(())
+    }
+}
+
+// --------------------------------------------------------- reference evaluation (from the docs)
+//
+// Written from the `# STACK WIN` documentation at the top of walker.rs, not from the code:
+// values are kept as i128 and reduced mod 2^32 after every operator.
+
+const M32: i128 = 1 << 32;
+
+#[derive(Clone, Debug, PartialEq)]
+enum Doc {
+    /// the record fails cleanly
+    Fail,
+    /// the caller's registers that are known afterwards (only names of the six can appear)
+    Known(BTreeMap<&'static str, u32>),
+}
+
+#[derive(Clone)]
+enum DocVal {
+    Int(i128),
+    Name(String),
+    Undefined,
+}
+
+struct DocEnv<'a> {
+    regs: BTreeMap<&'a str, u32>,
+    case: &'a Case,
+}
+impl<'a> DocEnv<'a> {
+    fn deref(&self, a: i128) -> Option<i128> {
+        read_mem(self.case.mem_base, &self.case.mem, a as u64).map(|v| v as i128)
+    }
+}
+
+fn doc_frame_size(r: &Rec, gc: u32) -> Option<i128> {
+    // frame_size = local_size + saved_register_size + grand_callee_parameter_size; a sum that does not
+    // fit the 32-bit quantities of the format is corrupt data: the record fails.
+    let s = r.loc as i128 + r.sav as i128 + gc as i128;
+    if s >= M32 {
+        None
+    } else {
+        Some(s)
+    }
+}
+
+fn doc_literal(tok: &str) -> Option<i128> {
+    // "<a signed decimal integer>" of 32-bit precision
+    let (neg, digits) = match tok.as_bytes().first()? {
+        b'-' => (true, &tok[1..]),
+        b'+' => (false, &tok[1..]),
+        _ => (false, tok),
+    };
+    if digits.is_empty() || !digits.bytes().all(|b| b.is_ascii_digit()) {
+        return None;
+    }
+    let mut v: i128 = 0;
+    for b in digits.bytes() {
+        v = v * 10 + (b - b'0') as i128;
+        if v > (1 << 40) {
+            return None;
+        }
+    }
+    let v = if neg { -v } else { v };
+    if v < -(1 << 31) || v > (1 << 31) - 1 {
+        return None;
+    }
+    Some(v.rem_euclid(M32))
+}
+
+fn doc_framedata(r: &Rec, env: &DocEnv) -> Doc {
+    let Ok(prog) = std::str::from_utf8(&r.rest) else { return Doc::Fail };
+    let gc = env.case.gc_param;
+    // "Before evaluating": $ebp and $esp must be known, $ebx is optional
+    let (Some(esp), Some(ebp)) = (env.regs.get("esp"), env.regs.get("ebp")) else { return Doc::Fail };
+    let mut vars: BTreeMap<String, i128> = BTreeMap::new();
+    vars.insert("$esp".into(), *esp as i128);
+    vars.insert("$ebp".into(), *ebp as i128);
+    if let Some(ebx) = env.regs.get("ebx") {
+        vars.insert("$ebx".into(), *ebx as i128);
+    }
+    // .raSearch = $esp + frame_size; with an `@` anywhere in the program the frame was realigned and
+    // $ebp + 4 is used instead. A search start beyond the 32-bit address space fails the record.
+    let ra_search = if prog.contains('@') {
+        *ebp as i128 + 4
+    } else {
+        match doc_frame_size(r, gc) {
+            Some(fs) => *esp as i128 + fs,
+            None => return Doc::Fail,
+        }
+    };
+    if ra_search >= M32 {
+        return Doc::Fail;
+    }
+    vars.insert(".cbParams".into(), r.par as i128);
+    vars.insert(".cbCalleeParams".into(), gc as i128);
+    vars.insert(".cbSavedRegs".into(), r.sav as i128);
+    vars.insert(".cbLocals".into(), r.loc as i128);
+    vars.insert(".raSearch".into(), ra_search);
+    vars.insert(".raSearchStart".into(), ra_search);
+
+    // tokens: whitespace separated; the "=NEXT_TOKEN" spelling of some toolchains means "= NEXT_TOKEN"
+    let mut toks: Vec<String> = vec![];
+    for piece in prog.split(|c: char| c == ' ' || c == '\t' || c == '\x0c' || c == '\r' || c == '\n') {
+        if piece.is_empty() {
+            continue;
+        }
+        if piece.len() > 1 && piece.starts_with('=') {
+            toks.push("=".into());
+            toks.push(piece[1..].to_string());
+        } else {
+            toks.push(piece.to_string());
+        }
+    }
+    let mut stack: Vec<DocVal> = vec![];
+    fn int_of(v: DocVal, vars: &BTreeMap<String, i128>) -> Option<i128> {
+        match v {
+            DocVal::Int(i) => Some(i),
+            DocVal::Name(n) => vars.get(&n).copied(),
+            DocVal::Undefined => None,
+        }
+    }
+    for t in &toks {
+        match t.as_str() {
+            "+" | "-" | "*" | "/" | "%" | "@" => {
+                let (Some(b), Some(a)) = (stack.pop(), stack.pop()) else { return Doc::Fail };
+                let (Some(b), Some(a)) = (int_of(b, &vars), int_of(a, &vars)) else { return Doc::Fail };
+                let v = match t.as_str() {
+                    "+" => a + b,
+                    "-" => a - b,
+                    "*" => a * b,
+                    "/" => {
+                        if b == 0 {
+                            return Doc::Fail;
+                        }
+                        a / b
+                    }
+                    "%" => {
+                        if b == 0 {
+                            return Doc::Fail;
+                        }
+                        a % b
+                    }
+                    _ => {
+                        // align: truncate a to a multiple of b, b a power of two
+                        if b == 0 || (b & (b - 1)) != 0 {
+                            return Doc::Fail;
+                        }
+                        a - a % b
+                    }
+                };
+                stack.push(DocVal::Int(v.rem_euclid(M32)));
+            }
+            "^" => {
+                let Some(p) = stack.pop() else { return Doc::Fail };
+                let Some(p) = int_of(p, &vars) else { return Doc::Fail };
+                let Some(v) = env.deref(p) else { return Doc::Fail };
+                stack.push(DocVal::Int(v));
+            }
+            "=" => {
+                let (Some(rhs), Some(lhs)) = (stack.pop(), stack.pop()) else { return Doc::Fail };
+                let DocVal::Name(name) = lhs else { return Doc::Fail };
+                match rhs {
+                    DocVal::Undefined => {
+                        vars.remove(&name);
+                    }
+                    other => {
+                        let Some(v) = int_of(other, &vars) else { return Doc::Fail };
+                        vars.insert(name, v);
+                    }
+                }
+            }
+            ".undef" => stack.push(DocVal::Undefined),
+            name if name.starts_with('$') || name.starts_with('.') => stack.push(DocVal::Name(name.to_string())),
+            other => match doc_literal(other) {
+                Some(v) => stack.push(DocVal::Int(v)),
+                None => return Doc::Fail, // not in the language (bare names are rejected by this implementation)
+            },
+        }
+    }
+    // "After evaluating": the caller's registers are $eip $esp $ebp $ebx $esi $edi; undefined ⇒ unknown
+    let mut known = BTreeMap::new();
+    for r in SIX {
+        if let Some(v) = vars.get(&format!("${r}")) {
+            known.insert(r, *v as u32);
+        }
+    }
+    Doc::Known(known)
+}
+
+fn doc_fpo(r: &Rec, abp: bool, env: &DocEnv) -> Doc {
+    let gc = env.case.gc_param;
+    let Some(fs) = doc_frame_size(r, gc) else { return Doc::Fail };
+    let Some(esp) = env.regs.get("esp").map(|v| *v as i128) else { return Doc::Fail };
+    // $eip := *($esp + frame_size)
+    let mut ra_at = esp + fs;
+    let Some(mut eip) = env.deref(ra_at) else { return Doc::Fail };
+    // leftover return address: only in a context frame (no grand callee), when the word equals the callee's eip
+    if !env.case.has_gc {
+        let Some(callee_eip) = env.regs.get("eip") else { return Doc::Fail };
+        if eip == *callee_eip as i128 {
+            ra_at += 4;
+            match env.deref(ra_at) {
+                Some(v) => eip = v,
+                None => return Doc::Fail,
+            }
+        }
+    }
+    let mut known = BTreeMap::new();
+    let ebp = if abp {
+        // $ebp := *($esp + grand_callee_parameter_size + saved_register_size - 8)
+        let a = esp + gc as i128 + r.sav as i128 - 8;
+        if a < 0 {
+            return Doc::Fail;
+        }
+        match env.deref(a) {
+            Some(v) => v,
+            None => return Doc::Fail,
+        }
+    } else {
+        // $ebp := $ebp ; $ebx := $ebx (if it was valid)
+        if let Some(ebx) = env.regs.get("ebx") {
+            known.insert("ebx", *ebx);
+        }
+        match env.regs.get("ebp") {
+            Some(v) => *v as i128,
+            None => return Doc::Fail,
+        }
+    };
+    // $esp := $esp + frame_size + 4 (one word further after a leftover return address)
+    let new_esp = ra_at + 4;
+    if new_esp >= M32 {
+        return Doc::Fail; // does not fit an x86 register
+    }
+    known.insert("eip", eip as u32);
+    known.insert("esp", new_esp as u32);
+    known.insert("ebp", ebp as u32);
+    Doc::Known(known)
+}
+
+/// Which record the documentation selects: "framedata" (type 4) preferred over "fpo" (type 0).
+/// Returns None when the choice depends on the parser's overlap repair (several usable records of
+/// one kind) — that part is C08's and is compared with the model only.
+fn doc_select(c: &Case) -> Option<Option<(bool, &Rec)>> {
+    if c.instr < c.base {
+        return Some(None);
+    }
+    let addr = c.instr - c.base;
+    let usable = |r: &&Rec, fd: bool| -> bool {
+        let consistent = if fd { r.ty == '4' && r.hp == '1' } else { r.ty == '0' && r.hp != '1' };
+        consistent && r.size != 0 && r.addr.checked_add(r.size as u64).is_some()
+    };
+    let fds: Vec<&Rec> = c.recs.iter().filter(|r| usable(r, true)).collect();
+    let fpos: Vec<&Rec> = c.recs.iter().filter(|r| usable(r, false)).collect();
+    if fds.len() > 1 || fpos.len() > 1 {
+        return None;
+    }
+    let covers = |r: &Rec| r.addr <= addr && addr - r.addr < r.size as u64;
+    if let Some(r) = fds.first() {
+        if covers(r) {
+            return Some(Some((true, r)));
+        }
+    }
+    if let Some(r) = fpos.first() {
+        if covers(r) {
+            return Some(Some((false, r)));
+        }
+    }
+    Some(None)
+}
+
+struct ImplOut {
+    ok: bool,
+    valid: BTreeMap<String, u32>,
+    clears: Vec<String>,
+    sets: Vec<(String, u64)>,
+    attempts: Vec<String>,
+}
+
+fn run_walk(c: &Case) -> Result<ImplOut, String> {
+    let text = symbol_text(c);
+    catch(|| {
+        let sf = SymbolFile::from_bytes(text.as_bytes()).expect("generated symbol file parses");
+        let module = MockModule { base: c.base };
+        let mut w = MockWalker::new(c);
+        let r = sf.walk_frame(&module, &mut w);
+        let valid = w.caller_valid.iter().map(|n| (n.clone(), *w.caller_vals.get(n).unwrap_or(&0))).collect();
+        ImplOut { ok: r.is_some(), valid, clears: w.clears, sets: w.sets, attempts: w.attempts }
+    })
+}
+
+fn tok_count(rest: &[u8]) -> usize {
+    rest.split(|b| b.is_ascii_whitespace()).filter(|p| !p.is_empty()).count()
+}
 
 impl Engine for Win {
     fn name(&self) -> &'static str {
         "win"
     }
     fn rule(&self) -> String {
-        "not implemented".into()
+        "STACK WIN lines (type 4 program strings / type 0 fpo, consistent and inconsistent type/has_program, \
+         1-3 records incl. overlapping ones, optional STACK CFI fallback) x size fields from \
+         {0,1,4,8,7fffffff,80000000,fffffffc,ffffffff} and random x callee register files (esp<8, esp near 2^32, \
+         missing esp/ebp/ebx/eip) x grand callee (none/0/4/boundary) x stack images (incl. the callee eip as a \
+         leftover return address). Programs: exhaustive over the full WIN token alphabet to 2 (quick) / 3 (thorough) tokens \
+         and over a 12-token core alphabet to 4 / 5 tokens, random statement lists (postfix of random expression trees) with \
+         token-level mutations and the '=tok' spelling beyond. Executed through SymbolFile::from_bytes + \
+         SymbolFile::walk_frame with a mock FrameWalker that is the twin of CfiStackWalker<CONTEXT_X86>; compared with the \
+         Lean model and with a reference evaluation written from the walker.rs documentation. \
+         Non-trivial: a STACK WIN record was selected for the address and its evaluation got past initialisation \
+         (program of >= 2 tokens, or an fpo record whose return-address slot was readable)."
+            .into()
     }
-    fn generate(&self, _tier: Tier, _rng: &mut Rng, _emit: &mut dyn FnMut(String)) {}
-    fn exec(&self, _case: &str) -> ImplResult {
-        ImplResult::default()
+    fn exhaustive_part(&self) -> Option<String> {
+        Some("all programs of <= 2 (quick) / <= 3 (thorough) tokens over the 38-token WIN alphabet and of <= 4 / <= 5 tokens over a 12-token core alphabet, each in a fixed environment; all 64 pairs of boundary size fields for fpo records".into())
+    }
+
+    fn generate(&self, tier: Tier, rng: &mut Rng, emit: &mut dyn FnMut(String)) {
+        gen::generate(tier, rng, emit);
+    }
+
+    fn model_request(&self, case: &str) -> Option<String> {
+        if case.starts_with("win walk ") {
+            Some(case.to_string())
+        } else {
+            None
+        }
+    }
+
+    fn exec(&self, case: &str) -> ImplResult {
+        let mut res = ImplResult::default();
+        let Some(c) = parse_case(case) else {
+            res.out = "bad-op".into();
+            return res;
+        };
+        if c.mode == "stack" {
+            return stack::exec(&c);
+        }
+        let sel = doc_select(&c);
+        match &sel {
+            Some(Some((true, _))) => res.tags.push("kind:framedata".into()),
+            Some(Some((false, _))) => res.tags.push("kind:fpo".into()),
+            Some(None) => res.tags.push("kind:none".into()),
+            None => res.tags.push("kind:overlap-repair".into()),
+        }
+        res.tags.push(format!("records:{}", c.recs.len()));
+        res.tags.push(format!("gc:{}", if !c.has_gc { "none" } else if c.gc_param == 0 { "0" } else { "param" }));
+        if c.regs.iter().any(|(n, v)| n == "esp" && *v < 8) {
+            res.tags.push("esp<8".into());
+        }
+        if !c.regs.iter().any(|(n, _)| n == "ebx") {
+            res.tags.push("ebx-missing".into());
+        }
+        if c.recs.iter().any(|r| r.loc as u64 + r.sav as u64 + c.gc_param as u64 > u32::MAX as u64) {
+            res.tags.push("frame-size>u32".into());
+        }
+        let out = match run_walk(&c) {
+            Ok(o) => o,
+            Err(msg) => {
+                res.out = "PANIC".into();
+                res.oracle.push(("win-panic".into(), msg));
+                return res;
+            }
+        };
+        res.tags.push(format!("result:{}", if out.ok { "some" } else { "none" }));
+        // canonical output
+        if out.ok {
+            let regs = out.valid.iter().map(|(n, v)| format!("{n}={v:x}")).collect::<Vec<_>>().join(",");
+            let clears = out.clears.join(",");
+            let sets = out.sets.iter().map(|(n, v)| format!("{n}={v:x}")).collect::<Vec<_>>().join(",");
+            res.out = format!(
+                "some {} sets:{} clears:{}",
+                if regs.is_empty() { "-" } else { &regs },
+                if sets.is_empty() { "-" } else { &sets },
+                if clears.is_empty() { "-" } else { &clears }
+            );
+        } else {
+            res.out = "none".into();
+        }
+
+        // ---- the property's oracle on the implementation alone
+        // (1) only the six output registers are ever reported
+        for n in &out.attempts {
+            if !SIX.contains(&n.as_str()) {
+                res.oracle.push(("win-non-output-set".into(), format!("set_caller_register({n:?}, ..) was called")));
+            }
+        }
+        if out.ok {
+            for n in out.valid.keys() {
+                if !SIX.contains(&n.as_str()) {
+                    res.oracle.push(("win-non-output-set".into(), format!("{n} is valid in the caller")));
+                }
+            }
+        }
+        // (2) the documented result
+        let Some(sel) = sel else {
+            res.nontrivial = true;
+            return res;
+        };
+        let callee: BTreeMap<&str, u32> = c.regs.iter().map(|(n, v)| (n.as_str(), *v)).collect();
+        let env = DocEnv { regs: callee.clone(), case: &c };
+        let doc = match sel {
+            None => Doc::Fail,
+            Some((true, r)) => doc_framedata(r, &env),
+            Some((false, r)) => doc_fpo(r, r.rest == b"1", &env),
+        };
+        if let Some((fd, r)) = sel {
+            res.nontrivial = if fd { tok_count(&r.rest) >= 2 } else { doc != Doc::Fail || out.ok };
+            if fd && r.rest.contains(&b'@') {
+                res.tags.push("program-has-@".into());
+            }
+        }
+        // expected state of the caller
+        let expected: Option<BTreeMap<&str, u32>> = match &doc {
+            Doc::Known(k) => {
+                res.tags.push("doc:known".into());
+                Some(k.clone())
+            }
+            Doc::Fail => {
+                res.tags.push("doc:fail".into());
+                if c.cfi && c.instr >= c.base && c.instr - c.base < u32::MAX as u64 {
+                    // STACK CFI semantics: callee-saved registers are forwarded, .cfa/.ra are set
+                    res.tags.push("cfi-fallback".into());
+                    let mut k: BTreeMap<&str, u32> = BTreeMap::new();
+                    for r in CALLEE_SAVED {
+                        if let Some(v) = callee.get(r) {
+                            k.insert(r, *v);
+                        }
+                    }
+                    k.insert("esp", CFI_CFA);
+                    k.insert("eip", CFI_RA);
+                    Some(k)
+                } else {
+                    None
+                }
+            }
+        };
+        match (&expected, out.ok) {
+            (None, false) => {}
+            (None, true) => res.oracle.push((
+                "win-doc-mismatch".into(),
+                format!("documentation: the record fails; implementation: {}", res.out),
+            )),
+            (Some(k), false) => res.oracle.push((
+                "win-doc-mismatch".into(),
+                format!("documentation: caller registers {k:x?}; implementation: none"),
+            )),
+            (Some(k), true) => {
+                let dollar_clears = !out.clears.is_empty() && out.clears.iter().all(|n| n.starts_with('$'));
+                // every register the record sets is reported through set_caller_register (not left to
+                // whatever the walker forwards on its own)
+                if let Doc::Known(dk) = &doc {
+                    for (r, v) in dk {
+                        let last = out.sets.iter().rev().find(|(n, _)| n == r).map(|(_, v)| *v);
+                        if last != Some(*v as u64) {
+                            res.oracle.push((
+                                "win-doc-mismatch".into(),
+                                format!("documentation sets caller {r}={v:x}; set_caller_register calls: {:x?}", out.sets),
+                            ));
+                        }
+                    }
+                }
+                for r in SIX {
+                    match (k.get(r), out.valid.get(r)) {
+                        (Some(a), Some(b)) if a == b => {}
+                        (None, None) => {}
+                        (Some(a), got) => res.oracle.push((
+                            "win-doc-mismatch".into(),
+                            format!("caller {r}: documentation {a:x}, implementation {got:x?}"),
+                        )),
+                        (None, Some(b)) => {
+                            // a register the record did not set is known in the caller
+                            let forwarded = CALLEE_SAVED.contains(&r) && callee.get(r) == Some(b);
+                            if forwarded && dollar_clears && matches!(doc, Doc::Known(_)) {
+                                res.oracle.push((
+                                    "win-forwarding-dollar-clear".into(),
+                                    format!(
+                                        "caller {r}={b:x} is still valid (forwarded from the callee) although the record did not set it; \
+                                         clear_caller_register was called with {:?}",
+                                        out.clears
+                                    ),
+                                ));
+                            } else {
+                                res.oracle.push((
+                                    "win-implicit-forwarding".into(),
+                                    format!("caller {r}={b:x} is valid although the record did not set it"),
+                                ));
+                            }
+                        }
+                    }
+                }
+            }
+        }
+        res
+    }
+
+    fn shrink(&self, case: &str, still_fails: &dyn Fn(&str) -> bool) -> String {
+        let Some(mut c) = parse_case(case) else { return case.to_string() };
+        let mut progress = true;
+        let mut rounds = 0;
+        while progress && rounds < 50 {
+            progress = false;
+            rounds += 1;
+            // drop records
+            let mut i = 0;
+            while c.recs.len() > 1 && i < c.recs.len() {
+                let mut d = c.clone();
+                d.recs.remove(i);
+                if still_fails(&render(&d)) {
+                    c = d;
+                    progress = true;
+                } else {
+                    i += 1;
+                }
+            }
+            // drop program tokens
+            for ri in 0..c.recs.len() {
+                if c.recs[ri].ty != '4' {
+                    continue;
+                }
+                let toks: Vec<Vec<u8>> = c.recs[ri]
+                    .rest
+                    .split(|b| b.is_ascii_whitespace())
+                    .filter(|p| !p.is_empty())
+                    .map(|p| p.to_vec())
+                    .collect();
+                let mut toks = toks;
+                let mut i = 0;
+                while i < toks.len() {
+                    let mut t = toks.clone();
+                    t.remove(i);
+                    let mut d = c.clone();
+                    d.recs[ri].rest = t.join(&b' ');
+                    if still_fails(&render(&d)) {
+                        toks = t;
+                        c = d;
+                        progress = true;
+                    } else {
+                        i += 1;
+                    }
+                }
+            }
+            // drop registers, the CFI record, the grand callee
+            let mut i = 0;
+            while i < c.regs.len() {
+                let mut d = c.clone();
+                d.regs.remove(i);
+                if still_fails(&render(&d)) {
+                    c = d;
+                    progress = true;
+                } else {
+                    i += 1;
+                }
+            }
+            if c.cfi {
+                let mut d = c.clone();
+                d.cfi = false;
+                if still_fails(&render(&d)) {
+                    c = d;
+                    progress = true;
+                }
+            }
+            // zero the size fields one at a time
+            for ri in 0..c.recs.len() {
+                for f in 0..3 {
+                    let mut d = c.clone();
+                    let slot = match f {
+                        0 => &mut d.recs[ri].par,
+                        1 => &mut d.recs[ri].sav,
+                        _ => &mut d.recs[ri].loc,
+                    };
+                    if *slot != 0 {
+                        *slot = 0;
+                        if still_fails(&render(&d)) {
+                            c = d;
+                            progress = true;
+                        }
+                    }
+                }
+            }
+        }
+        render(&c)
+    }
+}
+
+// ------------------------------------------------------------------------------------- generator
+
+mod gen {
+    use super::*;
+
+    pub const SIZES: [u32; 8] = [0, 1, 4, 8, 0x7fff_ffff, 0x8000_0000, 0xffff_fffc, 0xffff_ffff];
+
+    /// full WIN token alphabet (38 tokens)
+    pub const FULL: [&str; 38] = [
+        "+", "-", "*", "/", "%", "@", "=", "^", ".undef", "$eip", "$esp", "$ebp", "$ebx", "$esi", "$edi", "$T0",
+        ".cbParams", ".cbCalleeParams", ".cbSavedRegs", ".cbLocals", ".raSearch", ".raSearchStart", "0", "1", "4",
+        "-1", "+8", "2147483647", "-2147483648", "2147483648", "=$T0", "=4", "==", "foo", "$", "-", "$a@", "@4",
+    ];
+    /// core alphabet for the longer exhaustive programs
+    pub const CORE: [&str; 12] =
+        ["$eip", "$esp", "$T0", "$ebx", ".raSearch", "4", "-1", "+", "=", "^", ".undef", "@"];
+
+    struct Env {
+        regs: Vec<(String, u32)>,
+        mem_base: u64,
+        mem: Vec<u8>,
+    }
+
+    fn stack_image(rng: &mut Rng, base: u64, words: usize, eip: u32) -> Vec<u8> {
+        let mut mem = Vec::with_capacity(words * 4);
+        for i in 0..words {
+            let v: u32 = match rng.below(8) {
+                0 => eip,                                                         // leftover return address candidate
+                1 => (base as u32).wrapping_add(4 * rng.below(words as u64) as u32), // pointer into the stack
+                2 => 0,
+                3 => 0xffff_ffff,
+                4 => *rng.pick(&SIZES),
+                _ => 0x0100_0000u32.wrapping_add((i as u32) << 8).wrapping_add(rng.below(256) as u32),
+            };
+            mem.extend_from_slice(&v.to_le_bytes());
+        }
+        mem
+    }
+
+    fn env(rng: &mut Rng, sane: bool) -> Env {
+        let (mem_base, words): (u64, usize) = match if sane { 9 } else { rng.below(10) } {
+            0 => (0, 16),                 // stack at address 0 (esp < 8 readable)
+            1 => (0xffff_ffc0, 16),       // stack ends exactly at 2^32
+            2 => (0xffff_ffe0, 16),       // stack crosses 2^32
+            3 => (0x1000, 0),             // no memory
+            _ => (0x1000 + 0x10 * rng.below(16), 8 + rng.below(40) as usize),
+        };
+        let eip: u32 = 0x40_0000 + rng.below(0x1000) as u32;
+        let mem = stack_image(rng, mem_base, words, eip);
+        let in_stack = |rng: &mut Rng| -> u32 {
+            if words == 0 {
+                return mem_base as u32;
+            }
+            (mem_base as u32).wrapping_add(4 * rng.below(words as u64) as u32)
+        };
+        let esp = match if sane { 11 } else { rng.below(12) } {
+            0 => 0,
+            1 => 4,
+            2 => 7,
+            3 => 8,
+            4 => 0xffff_fff8,
+            5 => 0xffff_fffc,
+            6 => 0xffff_ffff,
+            7 => in_stack(rng).wrapping_add(1 + rng.below(3) as u32), // unaligned
+            _ => in_stack(rng),
+        };
+        let ebp = match if sane { 7 } else { rng.below(8) } {
+            0 => 0xffff_fffc,
+            1 => 0xffff_fffb,
+            2 => 0,
+            _ => in_stack(rng),
+        };
+        let mut regs: Vec<(String, u32)> = vec![];
+        if !rng.chance(1, 20) {
+            regs.push(("eip".into(), eip));
+        }
+        if !rng.chance(1, 25) {
+            regs.push(("esp".into(), esp));
+        }
+        if !rng.chance(1, 12) {
+            regs.push(("ebp".into(), ebp));
+        }
+        if !rng.chance(1, 3) {
+            regs.push(("ebx".into(), 0xb000_0000 + rng.below(256) as u32));
+        }
+        if !rng.chance(1, 3) {
+            regs.push(("esi".into(), 0x5100_0000 + rng.below(256) as u32));
+        }
+        if !rng.chance(1, 3) {
+            regs.push(("edi".into(), 0xd100_0000 + rng.below(256) as u32));
+        }
+        if rng.chance(1, 4) {
+            regs.push(("eax".into(), 0xa000_0000 + rng.below(256) as u32));
+        }
+        Env { regs, mem_base, mem }
+    }
+
+    fn size_field(rng: &mut Rng, sane: bool) -> u32 {
+        match if sane { 9 } else { rng.below(10) } {
+            0..=2 => *rng.pick(&SIZES),
+            3 => rng.next() as u32,
+            4 => 0xffff_fff0u32.wrapping_add(rng.below(16) as u32),
+            _ => 4 * rng.below(12) as u32,
+        }
+    }
+
+    fn gc(rng: &mut Rng, sane: bool) -> (bool, u32) {
+        match if sane { [0, 3, 7, 7][rng.below(4) as usize] } else { rng.below(8) } {
+            0..=2 => (false, 0),
+            3 => (true, 0),
+            4 => (true, *rng.pick(&SIZES)),
+            5 => (false, 4 * rng.below(4) as u32), // abstract walker: parameter size without a grand callee
+            _ => (true, 4 * rng.below(6) as u32),
+        }
+    }
+
+    const VARS: [&str; 14] = [
+        "$eip", "$esp", "$ebp", "$ebx", "$esi", "$edi", "$T0", "$T1", ".cbParams", ".cbCalleeParams", ".cbSavedRegs",
+        ".cbLocals", ".raSearch", ".raSearchStart",
+    ];
+
+    fn expr(rng: &mut Rng, depth: u32, out: &mut Vec<String>) {
+        if depth == 0 || rng.chance(1, 3) {
+            match rng.below(6) {
+                0..=2 => out.push(rng.pick(&VARS).to_string()),
+                3 => out.push((4 * rng.below(8)).to_string()),
+                4 => out.push(rng.pick(&["-1", "-4", "+4", "16", "2147483647", "-2147483648", "0"]).to_string()),
+                _ => out.push(rng.pick(&["$T0", "$esp", "$ebp", ".raSearch"]).to_string()),
+            }
+            return;
+        }
+        match rng.below(10) {
+            0..=1 => {
+                expr(rng, depth - 1, out);
+                out.push("^".into());
+            }
+            2 => {
+                expr(rng, depth - 1, out);
+                out.push(rng.pick(&["4", "8", "16", "1", "3", "0"]).to_string());
+                out.push("@".into());
+            }
+            _ => {
+                expr(rng, depth - 1, out);
+                expr(rng, depth - 1, out);
+                out.push(rng.pick(&["+", "+", "-", "*", "/", "%"]).to_string());
+            }
+        }
+    }
+
+    pub fn program(rng: &mut Rng) -> String {
+        let mut toks: Vec<String> = vec![];
+        let stmts = 1 + rng.below(5);
+        for _ in 0..stmts {
+            toks.push(rng.pick(&["$eip", "$esp", "$ebp", "$ebx", "$esi", "$edi", "$T0", "$T1", ".cbLocals", ".raSearch"]).to_string());
+            if rng.chance(1, 8) {
+                toks.push(".undef".into());
+            } else {
+                expr(rng, 3, &mut toks);
+            }
+            toks.push("=".into());
+        }
+        // mutations
+        let m = rng.below(10);
+        if m < 3 && !toks.is_empty() {
+            for _ in 0..1 + rng.below(2) {
+                let i = rng.below(toks.len() as u64) as usize;
+                match rng.below(4) {
+                    0 => {
+                        toks.remove(i);
+                    }
+                    1 => toks.insert(i, rng.pick(&FULL).to_string()),
+                    2 if rng.chance(1, 3) => toks[i] = format!("{}@", toks[i]), // '@' inside another token
+                    2 => toks[i] = rng.pick(&FULL).to_string(),
+                    _ => {
+                        let j = rng.below(toks.len() as u64) as usize;
+                        toks.swap(i, j)
+                    }
+                }
+                if toks.is_empty() {
+                    break;
+                }
+            }
+        }
+        // join: the `=tok` spelling, odd whitespace
+        let mut s = String::new();
+        let eq_merge = rng.chance(1, 4);
+        let odd_ws = rng.chance(1, 10);
+        let mut i = 0;
+        while i < toks.len() {
+            if !s.is_empty() {
+                s.push_str(if odd_ws { *rng.pick(&[" ", "  ", "\t", "\x0c", " \t "]) } else { " " });
+            }
+            s.push_str(&toks[i]);
+            if eq_merge && toks[i] == "=" && i + 1 < toks.len() && rng.chance(1, 2) {
+                s.push_str(&toks[i + 1]);
+                i += 1;
+            }
+            i += 1;
+        }
+        if rng.chance(1, 15) {
+            s.push(' ');
+        }
+        s
+    }
+
+    fn mk_case(e: &Env, base: u64, instr: u64, g: (bool, u32), cfi: bool, recs: Vec<Rec>) -> String {
+        render(&Case {
+            mode: "walk".into(),
+            base,
+            instr,
+            has_gc: g.0,
+            gc_param: g.1,
+            cfi,
+            regs: e.regs.clone(),
+            mem_base: e.mem_base,
+            mem: e.mem.clone(),
+            recs,
+        })
+    }
+
+    fn fixed_env() -> Env {
+        // esp = 0x1010, ebp = 0x1030 (so that esp+frame_size = 0x1024 differs from ebp+4); the stack holds pointers into itself so that `^` chains succeed
+        let base = 0x1000u64;
+        let mut mem = vec![];
+        for i in 0..16u32 {
+            let v = match i % 4 {
+                0 => 0x1000 + 4 * ((i * 7 + 3) % 16),
+                1 => 0x40_1000 + i,
+                2 => 8 * i,
+                _ => 0xffff_fff0 + i % 16,
+            };
+            mem.extend_from_slice(&v.to_le_bytes());
+        }
+        Env {
+            regs: vec![
+                ("eip".into(), 0x40_1005),
+                ("esp".into(), 0x1010),
+                ("ebp".into(), 0x1030),
+                ("ebx".into(), 0xb0b0_b0b0),
+                ("esi".into(), 0x5151_5151),
+                ("edi".into(), 0xd1d1_d1d1),
+            ],
+            mem_base: base,
+            mem,
+        }
+    }
+
+    fn fd(addr: u64, size: u32, par: u32, sav: u32, loc: u32, prog: &str) -> Rec {
+        Rec { ty: '4', addr, size, par, sav, loc, hp: '1', rest: prog.as_bytes().to_vec() }
+    }
+    fn fpo(addr: u64, size: u32, par: u32, sav: u32, loc: u32, rest: &str) -> Rec {
+        Rec { ty: '0', addr, size, par, sav, loc, hp: '0', rest: rest.as_bytes().to_vec() }
+    }
+
+    fn exhaustive(alphabet: &[&str], len: usize, emit: &mut dyn FnMut(String)) {
+        let e = fixed_env();
+        let n = alphabet.len();
+        let mut idx = vec![0usize; len];
+        loop {
+            let prog = idx.iter().map(|i| alphabet[*i]).collect::<Vec<_>>().join(" ");
+            emit(mk_case(&e, 0x40_0000, 0x40_1005, (true, 8), false, vec![fd(0x1000, 0x100, 0xc, 4, 8, &prog)]));
+            let mut k = len;
+            loop {
+                if k == 0 {
+                    return;
+                }
+                k -= 1;
+                idx[k] += 1;
+                if idx[k] < n {
+                    break;
+                }
+                idx[k] = 0;
+            }
+        }
+    }
+
+    pub fn generate(tier: Tier, rng: &mut Rng, emit: &mut dyn FnMut(String)) {
+        let (full_len, core_len, random_n, stack_n) = match tier {
+            Tier::Quick => (2, 4, 60_000, 3_000),
+            Tier::Thorough => (3, 5, 1_500_000, 60_000),
+        };
+        // ---- exhaustive programs
+        emit(mk_case(&fixed_env(), 0x40_0000, 0x40_1005, (true, 8), false, vec![fd(0x1000, 0x100, 0xc, 4, 8, "")]));
+        for len in 1..=full_len {
+            exhaustive(&FULL, len, emit);
+        }
+        for len in (full_len + 1)..=core_len {
+            exhaustive(&CORE, len, emit);
+        }
+        // ---- all pairs of boundary size fields for fpo (local, saved) x gc param boundary, both abp values
+        for &loc in &SIZES {
+            for &sav in &SIZES {
+                for (gi, g) in [(false, 0u32), (true, 0), (true, 4), (true, 0xffff_ffff)].iter().enumerate() {
+                    let mut e = fixed_env();
+                    if (loc as usize + sav as usize + gi) % 3 == 0 {
+                        e.regs.iter_mut().find(|r| r.0 == "esp").unwrap().1 = 4;
+                        e.mem_base = 0;
+                    }
+                    for abp in ["0", "1"] {
+                        emit(mk_case(&e, 0, 0x10, *g, false, vec![fpo(0, 0x100, 0, sav, loc, abp)]));
+                    }
+                    emit(mk_case(&e, 0, 0x10, *g, false, vec![fd(0, 0x100, 4, sav, loc, "$eip .raSearch ^ = $esp .raSearch 4 + =")]));
+                }
+            }
+        }
+        // ---- random
+        for _ in 0..random_n {
+            let sane = rng.chance(1, 2);
+            let e = env(rng, sane);
+            let g = gc(rng, sane);
+            let base: u64 = match rng.below(6) {
+                0 => 0,
+                1 => 0xffff_ffff_0000_0000,
+                _ => 0x40_0000,
+            };
+            let off: u64 = 0x1000 + rng.below(0x100);
+            let instr = match rng.below(30) {
+                0 => base.wrapping_sub(1 + rng.below(4)), // below the module (or wraps)
+                _ => base.wrapping_add(off),
+            };
+            let cfi = rng.chance(1, 5);
+            let mut recs: Vec<Rec> = vec![];
+            let shape = rng.below(20);
+            let covering = |rng: &mut Rng| -> (u64, u32) {
+                let lo = off - rng.below(0x20).min(off);
+                (lo, (off - lo) as u32 + 1 + rng.below(0x40) as u32)
+            };
+            let mk_fd = |rng: &mut Rng, a: u64, s: u32| -> Rec {
+                fd(a, s, size_field(rng, sane), size_field(rng, sane), size_field(rng, sane), &program(rng))
+            };
+            let mk_fpo = |rng: &mut Rng, a: u64, s: u32| -> Rec {
+                let rest = *rng.pick(&["0", "1", "0", "1", "1 ", "01", "", "x", "10"]);
+                fpo(a, s, size_field(rng, sane), size_field(rng, sane), size_field(rng, sane), rest)
+            };
+            match shape {
+                0..=8 => {
+                    let (a, s) = covering(rng);
+                    recs.push(mk_fd(rng, a, s));
+                }
+                9..=13 => {
+                    let (a, s) = covering(rng);
+                    recs.push(mk_fpo(rng, a, s));
+                }
+                14 => {
+                    // both kinds cover the address: framedata must win
+                    let (a, s) = covering(rng);
+                    let (a2, s2) = covering(rng);
+                    let r1 = mk_fd(rng, a, s);
+                    let r2 = mk_fpo(rng, a2, s2);
+                    if rng.chance(1, 2) {
+                        recs.push(r1);
+                        recs.push(r2);
+                    } else {
+                        recs.push(r2);
+                        recs.push(r1);
+                    }
+                }
+                15 => {
+                    // inconsistent type / has_program_string, unknown types
+                    let (a, s) = covering(rng);
+                    let mut r = if rng.chance(1, 2) { mk_fd(rng, a, s) } else { mk_fpo(rng, a, s) };
+                    match rng.below(4) {
+                        0 => r.hp = if r.hp == '1' { '0' } else { '1' },
+                        1 => r.ty = *rng.pick(&['1', '2', '3', '5', 'a', 'F']),
+                        2 => r.hp = *rng.pick(&['2', '9']),
+                        _ => {
+                            r.ty = *rng.pick(&['1', '3', 'b']);
+                            r.hp = '1';
+                        }
+                    }
+                    recs.push(r);
+                    if rng.chance(1, 2) {
+                        let (a, s) = covering(rng);
+                        recs.push(mk_fpo(rng, a, s));
+                    }
+                }
+                16 => {
+                    // record that does not cover the address / empty / overflowing range
+                    let (d1, d2, d3) = (rng.below(8), rng.below(4), rng.below(8) as u32);
+                    let r = match rng.below(4) {
+                        0 => mk_fd(rng, off + 1 + d1, 4),
+                        1 => mk_fd(rng, off, 0),
+                        2 => mk_fpo(rng, u64::MAX - d2, 0x10),
+                        _ => mk_fpo(rng, off - d1.min(off) - 8, d3),
+                    };
+                    recs.push(r);
+                }
+                17 | 18 => {
+                    // two or three records of one kind, overlapping / duplicate / nested (parser repair)
+                    let n = 2 + rng.below(2);
+                    let kind_fd = rng.chance(1, 2);
+                    for _ in 0..n {
+                        let a = off - rng.below(6).min(off) + rng.below(3);
+                        let s = rng.below(10) as u32;
+                        recs.push(if kind_fd { mk_fd(rng, a, s) } else { mk_fpo(rng, a, s) });
+                    }
+                    if rng.chance(1, 3) {
+                        let d = recs[0].clone();
+                        recs.push(d);
+                    }
+                }
+                _ => {} // no STACK WIN at all
+            }
+            emit(mk_case(&e, base, instr, g, cfi, recs));
+        }
+        // ---- the real x86 unwinder
+        stack::generate(stack_n, rng, emit);
+    }
+}
+
+// ------------------------------------------------------------------- the real x86 unwinder
+
+mod stack {
+    use super::*;
+    use minidump::format::CONTEXT_X86;
+    use minidump::system_info::{Cpu, Os};
+    use minidump::{
+        MinidumpContext, MinidumpContextValidity, MinidumpMemory, MinidumpModule, MinidumpModuleList,
+        MinidumpRawContext, UnifiedMemory,
+    };
+    use minidump_unwind::{string_symbol_supplier, walk_stack, CallStack, FrameTrust, Symbolizer, SystemInfo};
+    use std::collections::{HashMap, HashSet};
+
+    const MODULE_SIZE: u32 = 0x10_0000;
+
+    /// Cases for the real unwinder: a context frame inside `module1`, the stack pointer inside the
+    /// stack memory, one or two STACK WIN records covering the instruction.
+    pub fn generate(n: usize, rng: &mut Rng, emit: &mut dyn FnMut(String)) {
+        for k in 0..n {
+            let base: u64 = 0x4000_0000;
+            let off: u64 = 0x1000 + rng.below(0x80);
+            let eip = (base + off) as u32;
+            let words = 16 + rng.below(32) as usize;
+            let mem_base: u64 = 0x8000_0000 + 0x10 * rng.below(8);
+            let mut mem = vec![];
+            for i in 0..words {
+                let v: u32 = match rng.below(6) {
+                    0 => eip,
+                    1 => (mem_base as u32) + 4 * rng.below(words as u64) as u32,
+                    2 => 0x4000_2000 + rng.below(0x1000) as u32, // a plausible return address in the module
+                    3 => 0x4000_2000 + rng.below(0x1000) as u32,
+                    4 => 0,
+                    _ => 0x0100_0000 + ((i as u32) << 8),
+                };
+                mem.extend_from_slice(&v.to_le_bytes());
+            }
+            let esp = (mem_base as u32) + 4 * rng.below(words as u64 / 2) as u32;
+            let ebp = (mem_base as u32) + 4 * rng.below(words as u64) as u32;
+            let mut regs: Vec<(String, u32)> = vec![("eip".into(), eip), ("esp".into(), esp)];
+            if !rng.chance(1, 10) {
+                regs.push(("ebp".into(), ebp));
+            }
+            if !rng.chance(1, 4) {
+                regs.push(("ebx".into(), 0xb000_0000 + rng.below(256) as u32));
+            }
+            if !rng.chance(1, 4) {
+                regs.push(("esi".into(), 0x5100_0000 + rng.below(256) as u32));
+            }
+            if !rng.chance(1, 4) {
+                regs.push(("edi".into(), 0xd100_0000 + rng.below(256) as u32));
+            }
+            if rng.chance(1, 3) {
+                regs.push(("eax".into(), 0xa000_0000 + rng.below(256) as u32));
+            }
+            let small = |rng: &mut Rng| 4 * rng.below(6) as u32;
+            let mut recs = vec![];
+            let lo = off - rng.below(0x10);
+            let size = (off - lo) as u32 + 1 + rng.below(0x20) as u32;
+            let prog = if k % 4 == 0 {
+                // the classic shape: only $eip and $esp (and sometimes $ebp / .undef of a callee-saved register)
+                let mut p = String::from("$eip .raSearch ^ = $esp .raSearch 4 + =");
+                match rng.below(4) {
+                    0 => p.push_str(" $ebp .raSearch 4 - ^ ="),
+                    1 => p.push_str(" $ebx .undef ="),
+                    2 => p.push_str(" $ebp .undef = $esi $T0 ="),
+                    _ => {}
+                }
+                p
+            } else {
+                gen::program(rng)
+            };
+            if rng.chance(2, 3) {
+                recs.push(Rec { ty: '4', addr: lo, size, par: small(rng), sav: small(rng), loc: small(rng), hp: '1', rest: prog.into_bytes() });
+            } else {
+                let rest = if rng.chance(1, 2) { "0" } else { "1" };
+                recs.push(Rec { ty: '0', addr: lo, size, par: small(rng), sav: small(rng), loc: small(rng), hp: '0', rest: rest.as_bytes().to_vec() });
+            }
+            emit(render(&Case {
+                mode: "stack".into(),
+                base,
+                instr: eip as u64,
+                has_gc: false,
+                gc_param: 0,
+                cfi: rng.chance(1, 8),
+                regs,
+                mem_base,
+                mem,
+                recs,
+            }));
+        }
+    }
+
+    struct Frame1 {
+        trust_cfi: bool,
+        valid: BTreeMap<String, u32>,
+    }
+
+    fn run(c: &Case) -> Result<Option<Frame1>, String> {
+        let mut raw = CONTEXT_X86::default();
+        let mut valid: HashSet<&'static str> = HashSet::new();
+        for (n, v) in &c.regs {
+            let Some(m) = memoize(n) else { return Err(format!("bad-register {n}")) };
+            valid.insert(m);
+            match m {
+                "eip" => raw.eip = *v,
+                "esp" => raw.esp = *v,
+                "ebp" => raw.ebp = *v,
+                "ebx" => raw.ebx = *v,
+                "esi" => raw.esi = *v,
+                "edi" => raw.edi = *v,
+                "eax" => raw.eax = *v,
+                "ecx" => raw.ecx = *v,
+                "edx" => raw.edx = *v,
+                _ => raw.eflags = *v,
+            }
+        }
+        let text = symbol_text(c);
+        let base = c.base;
+        let mem_base = c.mem_base;
+        let bytes = c.mem.clone();
+        catch(move || {
+            let context = MinidumpContext { raw: MinidumpRawContext::X86(raw), valid: MinidumpContextValidity::Some(valid) };
+            let modules = MinidumpModuleList::from_modules(vec![MinidumpModule::new(base, MODULE_SIZE, "module1")]);
+            let stack_memory = MinidumpMemory {
+                desc: Default::default(),
+                base_address: mem_base,
+                size: bytes.len() as u64,
+                bytes: &bytes,
+                endian: scroll::LE,
+            };
+            let system_info = SystemInfo {
+                os: Os::Windows,
+                os_version: None,
+                os_build: None,
+                cpu: Cpu::X86,
+                cpu_info: None,
+                cpu_microcode_version: None,
+                cpu_count: 1,
+            };
+            let mut symbols = HashMap::new();
+            symbols.insert("module1".to_string(), text);
+            let symbolizer = Symbolizer::new(string_symbol_supplier(symbols));
+            let mut stack = CallStack::with_context(context);
+            let rt = tokio::runtime::Builder::new_current_thread().build().unwrap();
+            rt.block_on(walk_stack(
+                0,
+                (),
+                &mut stack,
+                Some(UnifiedMemory::Memory(&stack_memory)),
+                &modules,
+                &system_info,
+                &symbolizer,
+            ));
+            stack.frames.get(1).map(|f| {
+                let mut valid = BTreeMap::new();
+                if let MinidumpRawContext::X86(ctx) = &f.context.raw {
+                    for r in X86_REGS {
+                        let is_valid = match &f.context.valid {
+                            MinidumpContextValidity::All => true,
+                            MinidumpContextValidity::Some(w) => w.contains(r),
+                        };
+                        if is_valid {
+                            let v = match r {
+                                "eip" => ctx.eip,
+                                "esp" => ctx.esp,
+                                "ebp" => ctx.ebp,
+                                "ebx" => ctx.ebx,
+                                "esi" => ctx.esi,
+                                "edi" => ctx.edi,
+                                "eax" => ctx.eax,
+                                "ecx" => ctx.ecx,
+                                "edx" => ctx.edx,
+                                _ => ctx.eflags,
+                            };
+                            valid.insert(r.to_string(), v);
+                        }
+                    }
+                }
+                Frame1 { trust_cfi: f.trust == FrameTrust::CallFrameInfo, valid }
+            })
+        })
+    }
+
+    pub fn exec(c: &Case) -> ImplResult {
+        let mut res = ImplResult::default();
+        if c.has_gc || c.gc_param != 0 || c.instr < c.base || c.instr - c.base >= MODULE_SIZE as u64 || c.instr > u32::MAX as u64 {
+            res.out = "bad-op".into();
+            return res;
+        }
+        let f1 = match run(c) {
+            Ok(f) => f,
+            Err(msg) if msg.starts_with("bad-register") => {
+                res.out = "bad-op".into();
+                return res;
+            }
+            Err(msg) => {
+                res.out = "PANIC".into();
+                res.oracle.push(("win-panic".into(), format!("walk_stack: {msg}")));
+                return res;
+            }
+        };
+        res.out = match &f1 {
+            None => "stack noframe".into(),
+            Some(f) => format!(
+                "stack {} {}",
+                if f.trust_cfi { "cfi" } else { "other" },
+                f.valid.iter().map(|(n, v)| format!("{n}={v:x}")).collect::<Vec<_>>().join(",")
+            ),
+        };
+        // documented result of the selected record
+        let Some(sel) = doc_select(c) else { return res };
+        let callee: BTreeMap<&str, u32> = c.regs.iter().map(|(n, v)| (n.as_str(), *v)).collect();
+        let env = DocEnv { regs: callee.clone(), case: c };
+        let doc = match sel {
+            None => Doc::Fail,
+            Some((true, r)) => doc_framedata(r, &env),
+            Some((false, r)) => doc_fpo(r, r.rest == b"1", &env),
+        };
+        res.tags.push(format!("stack:{}", match (&doc, &f1) {
+            (Doc::Known(_), Some(f)) if f.trust_cfi => "win-frame",
+            (Doc::Known(_), _) => "win-rejected",
+            (Doc::Fail, Some(f)) if f.trust_cfi => "cfi-frame",
+            _ => "other",
+        }));
+        let callee_esp = callee.get("esp").copied();
+        // the stack pointer must be inside the stack memory, else walk_stack does not unwind at all
+        let sp_in_stack = callee_esp.is_some_and(|sp| (sp as u64) >= c.mem_base && ((sp as u64) - c.mem_base) < c.mem.len() as u64);
+        if let Doc::Known(k) = &doc {
+            res.nontrivial = true;
+            let usable = sp_in_stack
+                && k.get("eip").is_some_and(|ip| *ip >= 4096)
+                && k.get("esp").is_some_and(|sp| Some(*sp) > callee_esp);
+            match &f1 {
+                Some(f) if f.trust_cfi => {
+                    for r in SIX {
+                        match (k.get(r), f.valid.get(r)) {
+                            (Some(a), Some(b)) if a == b => {}
+                            (None, None) => {}
+                            (Some(a), got) => res.oracle.push((
+                                "win-stack-doc-mismatch".into(),
+                                format!("caller frame {r}: documentation {a:x}, walk_stack {got:x?}"),
+                            )),
+                            (None, Some(b)) => {
+                                let forwarded = CALLEE_SAVED.contains(&r) && callee.get(r) == Some(b);
+                                res.oracle.push((
+                                    if forwarded { "win-stack-forwarding" } else { "win-stack-implicit" }.into(),
+                                    format!("caller frame (trust=cfi) lists {r}={b:x} as valid although the STACK WIN record did not set it"),
+                                ));
+                            }
+                        }
+                    }
+                    for n in f.valid.keys() {
+                        if !SIX.contains(&n.as_str()) {
+                            res.oracle.push(("win-non-output-set".into(), format!("caller frame lists {n} as valid")));
+                        }
+                    }
+                }
+                _ if usable => res.oracle.push((
+                    "win-stack-doc-mismatch".into(),
+                    format!("documentation: caller registers {k:x?}; walk_stack produced {}", res.out),
+                )),
+                _ => {}
+            }
+        }
+        res
     }
 }
